@@ -43,6 +43,8 @@ def atom_axioms(atoms, present):
         elif k == "div":
             m = ("mod", a[1], a[2])
             t = Lin.from_key(a[1])
+            if t.c >= 0 and all(c >= 0 for c in t.t.values()):
+                ax.append(("le", -A))       # t >= 0 (every atom is non-negative), so is its quotient
             if m not in present:
                 ax.append(("le", A.scale(a[2]) - t))
                 ax.append(("le", t - A.scale(a[2]) - (a[2] - 1)))
@@ -94,6 +96,15 @@ def _residues(eqs, m):
                 r = (-L.c * c)
                 rows.append(Lin.from_key(a[1]) - r)
                 continue
+        # congruence view of the row: (t mod m') ≡ t (mod m) when m | m'
+        if any(a[0] == "mod" and a[2] % m == 0 for a in L.t):
+            L2 = Lin(None, L.c)
+            for a, c in L.t.items():
+                if a[0] == "mod" and a[2] % m == 0:
+                    L2 = L2 + Lin.from_key(a[1]).scale(c)
+                else:
+                    L2 = L2 + Lin({a: c})
+            rows.append(L2)
         rows.append(L)
     changed = True
     while changed:
